@@ -109,7 +109,7 @@ def decision_stream(run, drv, ask):
         try:
             with warnings.catch_warnings():
                 warnings.simplefilter("ignore")
-                with time_limit(10):
+                with time_limit(60):
                     out = mod._dist_sample(Stub(), interaction_type=InteractionType(it))
             kind = classify(out, mod.n_empirical_estimate)
             if calls and calls[0][1] == (mod.n_empirical_estimate,):
@@ -163,7 +163,7 @@ def real_oracle(run):
         try:
             with warnings.catch_warnings():
                 warnings.simplefilter("ignore")
-                with time_limit(30), set_interaction_type(it):
+                with time_limit(90), set_interaction_type(it):
                     torch.manual_seed(5)
                     out = mod(td)
         except TimeoutError:
@@ -211,6 +211,172 @@ def real_oracle(run):
             run.oracle_ok("probabilistic")
 
 
+def seq_oracle(run):
+    """ProbabilisticTensorDictSequential: deterministic part + probabilistic head. get_dist / log_prob / forward agree with
+    a distribution built by hand from the parameters the deterministic part computes; other entries untouched."""
+    from tensordict import TensorDict
+    from tensordict.nn import (ProbabilisticTensorDictModule, ProbabilisticTensorDictSequential, TensorDictModule,
+                               set_interaction_type, CompositeDistribution)
+    from tensordict.nn.probabilistic import InteractionType
+
+    def params_fn(x):
+        return x * 2 + 1, x.abs() + 0.5
+    for it, rlp, inplace in itertools.product(list(InteractionType), [False, True], [None, True, False]):
+        case = ["prob_seq", str(it), rlp, inplace]
+        run.case(("prob_seq", str(it), rlp, str(inplace)))
+        torch.manual_seed(3)
+        x = torch.randn(4, 3)
+        td = TensorDict({"x": x, "other": torch.arange(4.0)}, batch_size=[4])
+        before = {k: v for k, v in td.items()}
+        kw = {} if inplace is None else {"inplace": inplace}
+        try:
+            seq = ProbabilisticTensorDictSequential(
+                TensorDictModule(params_fn, in_keys=["x"], out_keys=["loc", "scale"]),
+                ProbabilisticTensorDictModule(in_keys=["loc", "scale"], out_keys=["a"], distribution_class=D.Normal, return_log_prob=rlp),
+                **kw)
+        except TypeError:
+            continue
+        loc, scale = params_fn(x)
+        ref = D.Normal(loc, scale)
+        bad = []
+        try:
+            with warnings.catch_warnings():
+                warnings.simplefilter("ignore")
+                with time_limit(90), set_interaction_type(it):
+                    torch.manual_seed(9)
+                    out = seq(td.copy() if inplace is None else td)
+                    dist = seq.get_dist(td.select("x", "other").copy())
+        except TimeoutError:
+            raise
+        except Exception as e:  # noqa: BLE001
+            run.count("prob.unavailable", f"seq/{it}:{type(e).__name__}")
+            continue
+        if not (torch.equal(dist.loc, loc) and torch.equal(dist.scale, scale)):
+            bad.append("get_dist is not the distribution of the parameters the deterministic part computes")
+        torch.manual_seed(9)
+        try:
+            want = {InteractionType.RANDOM: lambda: ref.rsample(), InteractionType.MODE: lambda: ref.mode, InteractionType.MEAN: lambda: ref.mean,
+                    InteractionType.MEDIAN: lambda: ref.icdf(torch.tensor(0.5)), InteractionType.DETERMINISTIC: lambda: ref.mean}[it]()
+        except Exception:  # noqa: BLE001
+            want = None
+        a = out.get("a", None)
+        if a is None:
+            bad.append("sample key missing from the output")
+        elif want is not None and not torch.allclose(a, want):
+            bad.append("sample != statistic of the reference distribution")
+        if rlp and a is not None:
+            lpk = seq.log_prob_key if hasattr(seq, "log_prob_key") else "sample_log_prob"
+            lp = out.get(lpk, None)
+            if lp is None or not torch.allclose(lp, ref.log_prob(a)):
+                bad.append("log-prob entry != dist.log_prob(sample)")
+        if a is not None:
+            # log_prob() of the sequence on a tensordict holding the sample
+            try:
+                with warnings.catch_warnings():
+                    warnings.simplefilter("ignore")
+                    probe = TensorDict({"x": x, "a": a.detach()}, batch_size=[4])
+                    lp2 = seq.log_prob(probe)
+                lp2 = lp2 if isinstance(lp2, torch.Tensor) else lp2.get(seq.log_prob_key)
+                if not torch.allclose(lp2, ref.log_prob(a.detach())):
+                    bad.append("seq.log_prob(td) != dist.log_prob(td[sample])")
+            except Exception as e:  # noqa: BLE001
+                run.count("prob.unavailable", f"seq.log_prob/{it}:{type(e).__name__}")
+        if inplace in (None, True):
+            src = td if inplace is True else None
+            if src is not None:
+                lost = [k for k, v in before.items() if src.get(k) is not v]
+                if lost:
+                    bad.append(f"input entries replaced: {lost}")
+        if bad:
+            run.oracle_fail("probabilistic", case, "; ".join(bad), "prob_seq:" + str(it))
+        else:
+            run.oracle_ok("probabilistic")
+
+    # composite distribution: two heads, per-key samples and log-probs
+    for it, rlp in itertools.product(list(InteractionType), [False, True]):
+        case = ["composite", str(it), rlp]
+        run.case(("composite", str(it), rlp))
+        torch.manual_seed(4)
+        params = TensorDict({"params": {"cont": {"loc": torch.randn(4, 3), "scale": torch.rand(4, 3) + 0.5},
+                                        "disc": {"logits": torch.randn(4, 5)}}}, batch_size=[4])
+        try:
+            mod = ProbabilisticTensorDictModule(
+                in_keys=["params"], out_keys=["cont", "disc"], distribution_class=CompositeDistribution,
+                distribution_kwargs={"distribution_map": {"cont": D.Normal, "disc": D.Categorical}}, return_log_prob=rlp)
+            with warnings.catch_warnings():
+                warnings.simplefilter("ignore")
+                with time_limit(90), set_interaction_type(it):
+                    torch.manual_seed(2)
+                    out = mod(params.copy())
+        except TimeoutError:
+            raise
+        except Exception as e:  # noqa: BLE001
+            run.count("prob.unavailable", f"composite/{it}:{type(e).__name__}")
+            continue
+        refc = D.Normal(params["params", "cont", "loc"], params["params", "cont", "scale"])
+        refd = D.Categorical(logits=params["params", "disc", "logits"])
+        bad = []
+        torch.manual_seed(2)
+        if it == InteractionType.RANDOM:
+            wc, wd = refc.rsample(), None   # sampling order inside the composite is its own business: check supports only
+            if out["cont"].shape != wc.shape or out["disc"].shape != torch.Size([4]):
+                bad.append("sample shapes")
+        elif it in (InteractionType.MODE,):
+            if not torch.allclose(out["cont"], refc.mode) or not torch.equal(out["disc"], refd.mode):
+                bad.append("mode")
+        elif it == InteractionType.MEAN:
+            if not torch.allclose(out["cont"], refc.mean):
+                bad.append("mean")
+        if rlp:
+            keys = [k for k in out.keys(True, True) if "log_prob" in str(k)]
+            lpc = [out[k] for k in keys if "cont" in str(k)]
+            if lpc and not torch.allclose(lpc[0].reshape(4, -1).sum(-1) if lpc[0].ndim > 1 else lpc[0], refc.log_prob(out["cont"]).sum(-1)) \
+                    and not torch.allclose(lpc[0], refc.log_prob(out["cont"])):
+                bad.append("composite log-prob of the continuous head")
+            lpd = [out[k] for k in keys if "disc" in str(k)]
+            if lpd and not torch.allclose(lpd[0], refd.log_prob(out["disc"])):
+                bad.append("composite log-prob of the discrete head")
+        if bad:
+            run.oracle_fail("probabilistic", case, "; ".join(bad), "composite:" + str(it))
+        else:
+            run.oracle_ok("probabilistic")
+
+
+def context_oracle(run):
+    """set_interaction_type / set_skip_existing restore the previous mode, nested and on exceptions"""
+    from tensordict.nn import set_interaction_type, set_skip_existing, skip_existing
+    from tensordict.nn.probabilistic import InteractionType, interaction_type
+    rng = run.rng
+    for _ in range(40):
+        depth = rng.randint(1, 4)
+        modes = [rng.choice(list(InteractionType)) for _ in range(depth)]
+        skips = [rng.choice([True, False]) for _ in range(depth)]
+        raise_at = rng.choice([None] + list(range(depth)))
+        base_it, base_sk = interaction_type(), skip_existing()
+        seen = []
+
+        def nest(i):
+            if i == depth:
+                return
+            with set_interaction_type(modes[i]), set_skip_existing(skips[i]):
+                seen.append((interaction_type() == modes[i], skip_existing() == skips[i]))
+                if raise_at == i:
+                    raise KeyError("boom")
+                nest(i + 1)
+                seen.append((interaction_type() == modes[i], skip_existing() == skips[i]))
+        try:
+            nest(0)
+        except KeyError:
+            pass
+        run.case(("ctx", tuple(map(str, modes)), tuple(skips), raise_at))
+        if not all(a and b for a, b in seen) or interaction_type() != base_it or skip_existing() != base_sk:
+            run.oracle_fail("context_state", [list(map(str, modes)), skips, raise_at], "interaction type / skip_existing mode not restored", "context_state")
+        else:
+            run.oracle_ok("context_state")
+
+
 def run_prob(run, drv, ask):
     decision_stream(run, drv, ask)
     real_oracle(run)
+    seq_oracle(run)
+    context_oracle(run)
